@@ -112,7 +112,54 @@ type TraceRec struct {
 	Kwargs [][2]string `json:"kwargs"`
 }
 
+// leakedIterators counts containers reachable from the (possibly partial) globals that still
+// have an active iterator after the run has ended -- every exit path must release them.
+func leakedIterators(globals starlark.StringDict) int {
+	seen := map[starlark.Value]bool{}
+	n := 0
+	var walk func(v starlark.Value, d int)
+	walk = func(v starlark.Value, d int) {
+		if v == nil || d > 6 {
+			return
+		}
+		switch x := v.(type) {
+		case *starlark.List:
+			if seen[x] {
+				return
+			}
+			seen[x] = true
+			if c, ok := starlark.VerifIterCount(x); ok && c > 0 {
+				n++
+			}
+			for i := 0; i < x.Len(); i++ {
+				walk(x.Index(i), d+1)
+			}
+		case *starlark.Dict:
+			if seen[x] {
+				return
+			}
+			seen[x] = true
+			if c, ok := starlark.VerifIterCount(x); ok && c > 0 {
+				n++
+			}
+			for _, it := range x.Items() {
+				walk(it[0], d+1)
+				walk(it[1], d+1)
+			}
+		case starlark.Tuple:
+			for _, e := range x {
+				walk(e, d+1)
+			}
+		}
+	}
+	for _, v := range globals {
+		walk(v, 0)
+	}
+	return n
+}
+
 type Run struct {
+	Leaked   int         `json:"leaked"` // containers left locked by an iterator after the run
 	Outcome  string      `json:"outcome"`
 	ErrMsg   string      `json:"errmsg"`
 	ErrPos   *[2]int32   `json:"errpos"`
@@ -426,6 +473,7 @@ func runOne(o *Out) {
 			}
 		}
 	}
+	run.Leaked = leakedIterators(globals)
 	o.Run = run
 }
 
